@@ -7,7 +7,7 @@ from ..util import Result
 
 
 def worker(wseed, prop, genname, budget_s, hist_len, binary, check_every=0, max_cmds=None, seeder="pool",
-           extra_env=None, label=None, restart_prob=0.0):
+           extra_env=None, label=None, restart_prob=0.0, script_prob=0.0):
     import importlib
     rng = util.rng_for(wseed, prop)
     res = Result()
@@ -44,6 +44,8 @@ def worker(wseed, prop, genname, budget_s, hist_len, binary, check_every=0, max_
                         res.cell("restart", "mid-history")
                         d.full_compare(dbs=[0])
                     argv = genfn(rng, d.model, d.db)
+                    if script_prob and rng.random() < script_prob and d.step_via_script(argv):
+                        continue
                     d.step(argv, probe=None if rng.random() < 0.8 else True)
                     if check_every and (i + 1) % check_every == 0:
                         d.verif_check()
@@ -77,7 +79,7 @@ def sanitizer_pass(prop, genname, seed, budget_s, hist_len, check_every, profile
 
 
 def run(prop, tier, genname, rule, budget_quick=20, budget_thorough=240, hist_len=(20, 200), check_every=0,
-        assumptions=None, extra_fn=None, asan_budget=90, restart_prob=0.0):
+        assumptions=None, extra_fn=None, asan_budget=90, restart_prob=0.0, script_prob=0.0):
     t0 = time.time()
     seed = util.seed_from_env()
     binary, bt = server.build("dev")
@@ -85,7 +87,7 @@ def run(prop, tier, genname, rule, budget_quick=20, budget_thorough=240, hist_le
     n = util.jobs()
     seeds = [seed * 1000 + i for i in range(n)]
     res = util.run_workers(worker, seeds, dict(prop=prop, genname=genname, budget_s=budget, hist_len=hist_len,
-                                               binary=binary, check_every=check_every, restart_prob=restart_prob))
+                                               binary=binary, check_every=check_every, restart_prob=restart_prob, script_prob=script_prob))
     res.extra["build_s"] = round(bt, 1)
     if tier == "thorough" and asan_budget:
         res.merge(sanitizer_pass(prop, genname, seed, asan_budget, hist_len, check_every))
